@@ -233,6 +233,11 @@ func (r *runner) noteRestart(pre *blobpool.VerifDump, crash bool) {
 	if wasDeep {
 		return
 	}
+	if pre.Stored > r.datacap {
+		// a Reset left the pool above the cap (reinjection has no eviction loop): Init evicts
+		r.tags["reopen-after-overcap"] = true
+		return
+	}
 	preL, postL := r.limboOf(pre), r.limboOf(post)
 	if len(preL) != len(postL) {
 		r.fail("reopen_reproduces: limbo holds %d txs after a clean restart, %d before", len(postL), len(preL))
